@@ -112,11 +112,23 @@ func VerifFailCleanly() {
 			zzFCOpens + "2020-01-05 price CHF 0 USD\n",
 			zzFCOpens + "@performance(CHF,CHF,)\n2020-01-05 \"x\"\nEquity:Equity Assets:A 1 CHF\n",
 			"include \"does-not-exist.knut\"\n",
+			// same date and description, one's postings a prefix of the other's (both arrival orders)
+			zzFCOpens + "2020-01-05 \"t\"\nEquity:Equity Assets:A 1 CHF\nAssets:A Expenses:X 1 CHF\n\n2020-01-05 \"t\"\nEquity:Equity Assets:A 1 CHF\n",
+			zzFCOpens + "2020-01-05 \"t\"\nEquity:Equity Assets:A 1 CHF\n\n2020-01-05 \"t\"\nEquity:Equity Assets:A 1 CHF\nAssets:A Expenses:X 1 CHF\n",
 		}
 		text := texts[v.Choice("text", len(texts))]
 		run = func() {
 			var r printRunner
 			out, err = zzRunText(text, func(cmd *cobra.Command, args []string) error { return r.execute(cmd, args) })
+		}
+	case 5: // a declared price with symbolic digits down to 1e-10 (zero, tiny, ordinary), valued report
+		text := zzFCOpens + "2020-01-05 price USD " + v.Digits("pi", 1) + "." + v.Digits("pf", 10) + " CHF\n\n2020-01-06 \"t\"\nEquity:Equity Assets:A 2 USD\n"
+		run = func() {
+			var r balanceRunner
+			r.Multiperiod.ZZSet("", "2999-12-31", 0, 0, false)
+			r.valuation.Set("CHF")
+			r.sortAlphabetically = true
+			_, err = zzReportText(&r, text) // (the rendered numbers are symbolic: the table is captured, not printed)
 		}
 	}
 	panicked, _ := v.Try(run)
